@@ -34,6 +34,11 @@ CLAIMS = {
   note="who-may-write by field identity; exchange recognised on SSA address expressions",
   technique="static analysis: who-may-write check + CFG must-follow/must-precede on go/ssa",
   ref="DESIGN.md §4 C08"),
+ "C11": dict(
+  text="Structural clauses of 'lookup, enumeration and coverage agree': (R-SIB) every type of package font that implements Cmap by embedding a Cmap and declares its own Lookup also declares Iter — three genuine findings (the symbol / legacy-Arabic remappers) are listed as known findings; (R-COV) both coverage builders of fontscan are fed with the cmap the face uses (Font.Cmap, respectively font.ProcessCmap(tables.ParseCmap(raw), page), the constructor NewFont stores into Font.Cmap); (R-TAB) ScriptRanges sorted and disjoint, the precondition of the merge in scriptsFromRanges. Agreement of Lookup and Iter inside each cmap format, RuneSet algebra and page arithmetic are NOT decided.",
+  note="method sets from go/types; SSA def-use for the coverage source",
+  technique="static analysis: sibling-method agreement over go/types method sets + SSA value-origin check + table evaluation",
+  ref="DESIGN.md §4 C11"),
  "C12": dict(
   text="Two clauses of geometric self-consistency: (R-ADV) every store to Glyph.XAdvance/YAdvance in package shaping is followed on all paths by RecomputeAdvance/RecalculateAll in the function or in every caller up to the exported API (Shape, AddWordSpacing, AddLetterSpacing, sideways, cutRun, postProcessLine), so Output.Advance tracks the glyphs; (R-SIDE) for a sideways input the buffer direction is assigned only after SwitchAxis, and Output.sideways precedes the font-extents read for out.Direction. Numeric identities (bounds, rotation, spacing amounts) are NOT decided.",
   note="the recompute call is not tied to the same Output value (any RecomputeAdvance/RecalculateAll on the path counts)",
@@ -64,6 +69,11 @@ CLAIMS = {
   note="origin tracking is context-insensitive and field-based; references stored as elements of non-derived containers are re-discovered by type only; stdlib/x-text/x-image trusted; no unsafe/reflect/cgo (checked)",
   technique="static analysis: interprocedural origin (taint) tracking on go/ssa + VTA call-graph reachability (init-only / post-construction sets)",
   ref="DESIGN.md §4 C17"),
+ "C18": dict(
+  text="Two structural clauses of the unsafe-to-break property: (R-PROP) in shaperOpentype.shape propagateFlags runs on every path to the exit and nothing that may write GlyphInfo.Mask (P-FX) runs after it, and Buffer.setGlyphFlags sets the scratch flag that enables propagation before any mask write; (R-UTB/exists) every function of the OpenType layout engine that reads neighbouring glyphs through a context primitive (skippingIterator.next/prev, matchInput/Backtrack/Lookahead) can reach, after that read, a call that marks the inspected range (unsafeToBreak*, mergeClusters*, or a helper reaching one), itself or in all its callers. That the marked range is the right one, and the script shapers' joining decisions, are NOT decided.",
+  note="may-reachability (existence) only: a lookup type that marks on some but not all mutating paths is not reported",
+  technique="static analysis: CFG must-follow, field-effect sets and reachability on go/ssa",
+  ref="DESIGN.md §4 C18"),
  "C19": dict(
   text="Two structural clauses of 'written files read back unchanged': (R-RO) origin tracking from WriteTTF's tables parameter shows that no store, copy/append/Put* destination in any function targets caller memory (an append whose first operand is caller memory counts as a write into its spare capacity); (R-DIR) the directory entry layout of the writer agrees with readOTFEntry field by field — at the offset where the reader assigns Tag/CheckSum/Offset/Length the writer stores a 32-bit value of that role (the table's tag, checksum(table.Content), the running offset, len(Content)), the body copy loop follows the same offset recurrence, and numTables is written where readOTFHeader reads it. Checksum arithmetic and header search fields are not decided.",
   note="encoding/binary trusted; roles are recognised on SSA values (field of Table, call of checksum on that table's Content, len(Content), phi advanced by len(Content))",
